@@ -28,7 +28,7 @@ def _problems(c, e, o):
 def run(ck):
     ck.rule = ("TLC enumerates every subset of 6 spoofed client headers (X-Forwarded-For/-Host/-Proto, True-Client-IP, X-Real-IP, "
                "X-Forwarded-Port) x single/repeated values x HTTP/1.1, 2, 3-style requests x gateway port 443/8443 x IPv4/IPv6 peer x "
-               "Host header without port / with the gateway port / with another port; each request goes through the proxy handler "
+               "Host header without port / with the gateway port / with another port (thorough: x GET/POST/DELETE); each request goes through the proxy handler "
                "gateway.New installs (ReverseProxy + http.Transport) into a fake tunnel that records the outbound request; "
                "non-trivial = at least one spoofed header present")
     bad = set()
